@@ -105,8 +105,9 @@ def corpus(max_nodes):
 
 # ---------------------------------------------------------------- Go source
 
-def render(forest, pkg):
+def render(forest, pkg, prims=None):
     """Go source of the struct for a shape; leaf types rotate through the 8 primitives"""
+    prims = prims or PRIMS
     ctr = {"leaf": 0, "grp": 0}
     decls = []
 
@@ -116,7 +117,7 @@ def render(forest, pkg):
             fname = "%s%d" % (prefix, i)
             star = {"r": "", "o": "*", "m": "[]"}[rep]
             if ch is None:
-                ty = PRIMS[ctr["leaf"] % 8]
+                ty = prims[ctr["leaf"] % len(prims)]
                 ctr["leaf"] += 1
                 lines.append("\t%s %s%s" % (fname, star, ty))
             else:
@@ -148,14 +149,23 @@ def build(shapes, log, tag="shapes", workers=16):
         sid = item[0]
         d = os.path.join(root, sid)
         os.makedirs(d)
-        if len(item) == 2:
+        from_parquet = len(item) == 3 and isinstance(item[1], bytes)
+        if from_parquet:
+            typ = item[2]
+            open(os.path.join(d, "in.parquet"), "wb").write(item[1])
+        elif len(item) == 2:
             src, typ = render(item[1], sid), "T"
         else:
             src, typ = item[1], item[2]
-        open(os.path.join(d, "types.go"), "w").write(src)
+        if not from_parquet:
+            open(os.path.join(d, "types.go"), "w").write(src)
         res = []
         for k in range(2):      # twice: deterministic output
-            p = subprocess.run([pg, "-input", "types.go", "-type", typ, "-package", sid, "-output", "parquet%d.go.txt" % k], cwd=d,
+            if from_parquet:
+                cmd = [pg, "-parquet", "in.parquet", "-type", typ, "-package", sid, "-struct-output", "types.go", "-output", "parquet%d.go.txt" % k]
+            else:
+                cmd = [pg, "-input", "types.go", "-type", typ, "-package", sid, "-output", "parquet%d.go.txt" % k]
+            p = subprocess.run(cmd, cwd=d,
                                stdout=subprocess.PIPE, stderr=subprocess.STDOUT, text=True)
             if p.returncode != 0 or not os.path.exists(os.path.join(d, "parquet%d.go.txt" % k)):
                 shutil.rmtree(d)
